@@ -4,6 +4,7 @@ SPECIFICATION GenSpec
 CONSTANTS
   EPs = {"station.ingest", "station.wrap", "transport.params", "regproc", "api", "dnsreg", "responder", "msgformat", "rdatatxt"}
   Strength = 2
+  Thin = FALSE
   MissingGuards = {}
   Modes = {"design", "sample"}
   NSample = 3000
